@@ -8,6 +8,7 @@ package main
 
 import (
 	"bufio"
+	"bytes"
 	"encoding/json"
 	"flag"
 	"fmt"
@@ -163,6 +164,22 @@ func crashProgram(p *Program, seed int64, oo ObsOpts, enc *json.Encoder, maxSnap
 				for _, rm := range cat.Repos {
 					ro[rm] = rex.Observe(rm, oo)
 				}
+				// the recovered repository is fully usable: a blob pushed to it now is there for a server that opens the directory afterwards
+				cont := map[string]any{"post": 0, "get": 0, "ok": false}
+				for _, id := range cat.Order {
+					if ct := cat.C[id]; ct.Def.Kind == "blob" && len(ct.Bytes) > 0 && id != "nx" {
+						real := cat.SymDig[sym("sha256", id)]
+						repo := cat.RepoReal[cat.Repos[0]]
+						p1 := rsrv.Do("POST", "/v2/"+repo+"/blobs/uploads/?digest="+real, nil, ct.Bytes, true, "")
+						// (a second server on the same directory, as after a restart, but without the collection a Close would run:
+						//  under some policies of the scenarios an unreferenced blob is garbage at once)
+						rs2 := NewSrv(cfg, s.dir)
+						g := rs2.Do("GET", "/v2/"+repo+"/blobs/"+real, nil, nil, true, "")
+						_ = rs2.Close()
+						cont = map[string]any{"post": p1.Status, "get": g.Status, "ok": bytes.Equal(g.Body, ct.Bytes)}
+						break
+					}
+				}
 				_ = rsrv.Close()
 				images++
 				rp := []string{}
@@ -170,7 +187,7 @@ func crashProgram(p *Program, seed int64, oo ObsOpts, enc *json.Encoder, maxSnap
 					rr, _ := filepath.Rel(root, x)
 					rp = append(rp, rr)
 				}
-				if err := enc.Encode(map[string]any{"k": "crash", "during": events, "n": s.n, "fsop": s.op, "paths": rp, "variant": s.variant, "obs": ro}); err != nil {
+				if err := enc.Encode(map[string]any{"k": "crash", "during": events, "n": s.n, "fsop": s.op, "paths": rp, "variant": s.variant, "obs": ro, "cont": cont}); err != nil {
 					return events, images, err
 				}
 				_ = os.RemoveAll(s.dir)
